@@ -22,7 +22,7 @@ RULES = {
     'I': dims.rule_I, 'B3': dims.rule_B3, 'N2a': dims.rule_N2a, 'IDX': dims.rule_IDX, 'TY1': dims.rule_TY1,
     'B2': mutate.rule_B2, 'WB': mutate.rule_WB, 'N1': mutate.rule_N1, 'N2': mutate.rule_N2, 'N5': mutate.rule_N5, 'D5': mutate.rule_D5, 'RNG': mutate.rule_RNG, 'IDX1': mutate.rule_IDX1, 'SLN': mutate.rule_SLN,
     'E5': ingest.rule_E5, 'CHOKE': ingest.rule_CHOKE, 'LV': ingest.rule_LV, 'WIN': ingest.rule_WIN,
-    'G2': mode.rule_G2, 'G3': mode.rule_G3, 'G5': mode.rule_G5, 'E8': mode.rule_E8,
+    'G2': mode.rule_G2, 'MIRROR': mode.rule_MIRROR, 'G3': mode.rule_G3, 'G5': mode.rule_G5, 'E8': mode.rule_E8,
     'H4': misc.rule_H4, 'ESC': misc.rule_ESC, 'DELEG': misc.rule_DELEG, 'PK': misc.rule_PK, 'INTEX': misc.rule_INTEX, 'LZ': misc.rule_LZ,
     'H5a': luts.rule_H5a, 'H5b': luts.rule_H5b, 'H5c': luts.rule_H5c,
 }
@@ -140,7 +140,9 @@ _p('C01', ['K', 'E6', 'J2', 'A10', 'A1', 'A11', 'SLN', 'IDX1'],
             "a negative repeat count raises ValueError (guard agreement among __mul__/__imul__; __rmul__ delegates)",
             "the content of len/iter/bool/indexing/slicing/+/* depends only on the operands' bits: these operations "
             "reach no read of the stream position or file name, and temporaries they mutate own fresh stores",
-            "non-in-place operations of the mutable classes return new objects (never self or an operand); installed stores are never shared with a mutable object"],
+            "non-in-place operations of the mutable classes return new objects (never self or an operand); installed stores are never shared with a mutable object",
+            "negative and omitted slice bounds keep their meaning: no arithmetic on the raw start/stop of a caller's slice before "
+            "slice.indices()/indices(); no single position widened to the window [k, k+1) unless known non-negative"],
    declined=["agreement of every index/slice/step/concatenation/repetition result with the string model, and IndexError "
              "for out-of-range indices: run-time index arithmetic inside bitarray and offset_slice_indices_lsb0"],
    explanation="Class-provenance typing of every return of the operator/slicing methods per concrete class; sibling guard "
@@ -287,7 +289,7 @@ _p('C02', ['H4', 'H2', 'H3', 'LV', 'OPTDEP', 'A7', 'F2', 'F5', 'INTEX'],
    explanation="Role-dispatch census over the creation and reading routes (resolved calls through Dtype.set_fn/get_fn/"
                "read_fn), structural comparison of the integer setters/getters, table agreement.")
 
-_p('C12', ['G1', 'G2', 'G3', 'G5', 'E8', 'E5', 'E9', 'N1', 'F2', 'IDX1', 'RNG', 'SLN'],
+_p('C12', ['G1', 'G2', 'G3', 'G5', 'E8', 'E5', 'E9', 'N1', 'F2', 'IDX1', 'RNG', 'SLN', 'MIRROR'],
    decided=["switching the option off restores msb0 behaviour exactly; the switch is complete (both tables assign the "
             "same 13 slots, variants differ and agree on parameters, nothing else rebinds a slot)",
             "whole-value interpretations, ==, hash, len, tobytes and the stored bit order of every ingest route are "
@@ -295,7 +297,11 @@ _p('C12', ['G1', 'G2', 'G3', 'G5', 'E8', 'E5', 'E9', 'N1', 'F2', 'IDX1', 'RNG', 
             "every position-taking operation goes through the mirror: no direct reference to an msb0/lsb0 variant "
             "outside the sanctioned absolute sites; msb0 search positions are never fed to switched accessors",
             "the two variants of each slot accept the same argument kinds (no operation works in one mode and raises "
-            "AttributeError in the other); step 0 fails with ValueError in both modes"],
+            "AttributeError in the other); step 0 fails with ValueError in both modes",
+            "there is one mirror: the store-level lsb0 variants address the bitarray only with a slice returned by "
+            "offset_slice_indices_lsb0 or with the index mirror -i - 1 (no hand-made mirrored slice, which is wrong for steps "
+            "other than 1); a single position is never widened to [k, k+1) while possibly negative; raw slice bounds are not "
+            "used in arithmetic before normalisation"],
    declined=["the mirror arithmetic itself (offset_slice_indices_lsb0 for negative steps, _findall_lsb0 chunking, count= "
              "and bytealigned handling, del with a step): integer arithmetic on run-time values; split() under lsb0 "
              "(not among the operations the property lists; pinned by the project's own test)"],
